@@ -497,14 +497,15 @@ def check_c08(ctx):
     if ctx.replay:
         do_replay(ctx, mods, ["C08"])
     engine_check(ctx, mods,
-                 [("crashw", 450, 8000)],
+                 [("crashw", 450, 8000), ("crashbig", 40, 400)],
                  ["C08"],
                  "the crash-inside-a-write histories of C07 (70% of the armed operations are batches of 1-6 entries steered to the remaining space of the block, so "
                  "batches spanning one and two blocks are interrupted at every entry position, on the sequential and on the io_uring path); oracle: at the first "
                  "count after the reopen the number of recovered entries of the interrupted batch is 0 or all of them - a strict non-empty prefix is the listed "
-                 "finding batchNotCrashAtomic (sequential path), anything that is not a prefix is reported under C07; "
+                 "finding batchNotCrashAtomic (sequential path), anything that is not a prefix is reported under C07; profile `crashbig`: batches up to the entry cap "
+                 "(production geometry: up to 2000 entries, one io_uring submission) interrupted before the submission or at an entry write; "
                  "non-trivial = distinct program that rotated a block, reopened or had a rejected operation",
-                 CRASH_ASSUME)
+                 CRASH_ASSUME, real_profiles=[("crashbig", 6, 40)])
 
 
 def check_c09(ctx):
